@@ -46,6 +46,19 @@ def run(chk: Check) -> None:
 
     from .lookups import truthiness_safe
     truthiness_safe(chk, "R03.3")
+    # a decoder that swallows a structural error leaves registered-but-unattached nodes behind;
+    # hooks run over a live iterable register nodes that are then not placed
+    from .c17 import _no_swallow
+    from .c16 import _materialised
+    from ..types import TypeEnv
+    sub = chk.sub()
+    _no_swallow(sub)
+    _materialised(sub, TypeEnv(chk.repo))
+    chk.adopt(sub, None, "R03.6")
+    from .c16 import _list_hooks
+    sub = chk.sub()
+    _list_hooks(sub, TypeEnv(chk.repo))
+    chk.adopt(sub, lambda o: o.rule == "R16.4c", "R03.3")
     # R03.7 get_by_uuid / _from_protobuf
     repo = chk.repo
     ir = repo.cls("IR")
